@@ -209,6 +209,58 @@ def run(ctx):
             elif "arithmetic-error" not in errs:
                 ctx.violation("an arithmetic error was not reported as such", inp, expected="arithmetic-error", observed=errs)
         ctx.count("spec-" + s[0])
+    # ---- the same expressions inside a '.repeat' block: one statement evaluated once per pass, '.' different in every
+    # pass, symbols of the statement defined before and after it (so some passes are evaluated again at the end)
+    rcases, rreqs = [], []
+    for i in range(1500 if ctx.thorough else 350):
+        depth = rng.choice([1, 2, 2, 3, 3, 4])
+        nolink = rng.random() < 0.33
+        base = 0o1000 if nolink else 0o2000
+        passes = rng.randint(2, 5)
+        k_fl = rng.randrange(1, 9)
+        after = base + 8 + 2 * passes + 4
+        env = {"ca": rng.randrange(-50, 1000), "cb": rng.choice([3, 8, 0o177777, -2]), "late": rng.randrange(1, 5000), "lbl": base + 4, "after": after,
+               "fl": after + k_fl}
+        tree = gen_tree(rng, depth, set(env))
+        # make sure '.', an operator whose value is cached per statement (/ % << >>) and a later symbol take part in most
+        # of them (small right operands: shift counts stay sane)
+        if rng.random() < 0.7:
+            dotpart = ("bin", rng.choice(["-", "+"]), ("dot",), ("sym", "lbl")) if rng.random() < 0.7 else ("dot",)
+            impure = ("bin", rng.choice(["/", "%", "<<", ">>", "*", "&"]), dotpart, ("lit", rng.choice([1, 2, 3, 4, 7])))
+            rest = ("sym", rng.choice(["late", "after", "fl"])) if rng.random() < 0.7 else tree
+            tree = ("bin", rng.choice(["+", "-", "+"]), impure, rest)
+        try:
+            text = render(tree, rng)
+        except Exception:  # noqa: BLE001 - a leaf kind the renderer does not know in this position
+            continue
+        pre = "ca = %s\ncb = %s\n.word 0, 0\nlbl: .word 0, 0\n" % (num(env["ca"], rng), num(env["cb"], rng))
+        src = "%s%s.repeat %d {\n.word 177777 & (%s)\n}\nfl = after + %d.\n.word 0, 0\nafter: .word 0\nlate = %d.\n" % (
+            "" if nolink else ".link %d.\n" % base, pre, passes, text, k_fl, env["late"])
+        dots = [base + 8 + 2 * k for k in range(passes)]
+        rcases.append((tree, text, src, env, dots, base))
+        for d in dots:
+            rreqs.append("tree " + " ".join(to_prefix(tree, env, d)))
+    ranswers = ctx.driver.ask(rreqs)
+    pos = 0
+    for tree, text, src, env, dots, base in rcases:
+        specs = [a.split() for a in ranswers[pos:pos + len(dots)]]
+        pos += len(dots)
+        r = impl.assemble([("/t/main.mac", src)])
+        inp = {"expression": text, "source": src}
+        ctx.case(("repeat", src), nontrivial=True)
+        ctx.count("expressions in a repeat block")
+        if any(sp[0] not in ("ok", "error") for sp in specs):
+            continue
+        if any(sp[0] == "error" for sp in specs):
+            if r.outcome == "ok":
+                ctx.violation("division by zero / a negative shift count in a '.repeat' pass was given a value silently", inp, expected="an error", observed=r.summary())
+            continue
+        want = b"".join((int(sp[1]) & 0xFFFF).to_bytes(2, "little") for sp in specs)
+        o = 8
+        got = r.code[o:o + len(want)] if r.outcome == "ok" else None
+        if r.outcome != "ok" or got != want:
+            ctx.violation("an expression in a '.repeat' block does not evaluate, pass by pass, to the integer the documented arithmetic gives", inp,
+                          expected=want.hex(), observed=got.hex() if got is not None else r.summary())
     # ---- chains of infix operators without brackets: the tree the real parser builds against the total
     # Lean model of the precedence loop (Model.Shunt: flatten_shunt, shunt_normal, normal_unique)
     chain_ops = ["*", "/", "%", "+", "-", "<<", ">>", "_", "&", "^", "|", "!"]
